@@ -190,6 +190,24 @@ pub fn eval_whole_file(text: &str) -> Outcome {
     })
 }
 
+/// the faulting form is the very first form the interpreter evaluates (nothing, or only comments, before it)
+pub fn first_form_case(ch: &mut Chooser) -> Report {
+    let marked = |e: Expr| Expr::Marked(Box::new(e));
+    let (kind, f): (&'static str, Expr) = match ch.below(6) {
+        0 => ("unbound-read", app("list", vec![Expr::Int(1), Expr::Int(2), marked(var("nowhere-bound"))])),
+        1 => ("unbound-read", Expr::If(Box::new(Expr::Bool(true)), Box::new(app("+", vec![Expr::Int(1), marked(var("nowhere-bound"))])), None)),
+        2 => ("non-procedure", app("+", vec![Expr::Int(1), Expr::App(Box::new(marked(Expr::Int(5))), vec![Expr::Int(1)])])),
+        3 => ("non-procedure", app("list", vec![Expr::Quote(Datum::Sym("a".into())), Expr::App(Box::new(marked(Expr::Str("f".into()))), vec![])])),
+        4 => ("unbound-read", app("car", vec![app("cons", vec![Expr::Int(0), marked(var("nowhere-bound"))])])),
+        _ => ("wrong-type", app("list", vec![Expr::Int(1), app("car", vec![Expr::Int(5)])])),
+    };
+    let forms = vec![Form::Expr(f), Form::Expr(Expr::Quote(Datum::Sym("after".into())))];
+    let mut rep = judge_program(ch, forms, 0, kind, "direct", false);
+    rep.label("first-form-evaluated");
+    rep.nontrivial = true;
+    rep
+}
+
 fn judge_program(ch: &mut Chooser, forms: Vec<Form>, fault_index: usize, kind: &'static str, context: &'static str, derived: bool) -> Report {
     let mut laid = lay_out_program(ch, &forms, fault_index);
     // a third of the programs are read from a file, half of those behind a header of comment-only lines
@@ -377,11 +395,12 @@ pub fn run(ctx: &Ctx) {
          error points at or before the offending token. A third of the programs are read from a file (half of those behind a header of comment-only lines). \
          Half of the cases avoid derived forms and library contexts by \
          construction. Context `deferred` (the fault sits in a procedure defined by an earlier form, the failing form is the \
-         later call) is judged for the fault kinds whose error has no location of its own; a derived form written twice \
+         later call) is judged for the fault kinds whose error has no location of its own; a fault in the very first form evaluated is located like any other; a derived form written twice \
          (first occurrence succeeds, the state changes, the second fails) must be located in the second occurrence. Non-trivial = the failing form is not on line 1 and spans >= 2 lines.",
     );
     let per = ctx.tier.pick(100, 400);
     ctx.random("same-form-written-twice", ctx.tier.pick(600, 4_000), 300, repeated_case);
+    ctx.random("first-form", ctx.tier.pick(400, 3_000), 200, first_form_case);
     for kind in KINDS.iter() {
         for context in CONTEXTS_C08.iter() {
             for derived in [false, true] {
